@@ -472,6 +472,8 @@ def _b_roll(op, root, start, ws):
         # those of the default -- but it must not influence how much state is carried or resumed either
         kw['min_periods'] = op['minp']
     w = v if kind == 'n' else '%ds' % v
+    if kind == 'n' and op.get('win_np'):
+        w = np.int64(v)             # a row count that comes out of an array computation
     if op.get('selpos') == 'before':
         r = _sel(root, op.get('sel')).rolling(w, **kw)
     else:
